@@ -160,7 +160,8 @@ var modellingAssumptions = []string{
 	"go/ssa (x/tools v0.29.0, NaiveForm) of the current /repo sources is taken as the semantics of the code; the translation SSA->SMT and the solvers' 'unsat' answers are trusted",
 	"int/uint are 64 bit; integers are mathematical in the logic and every + - * / unary- on a sized type carries an OVERFLOW obligation, so mathematical = machine arithmetic where those are discharged",
 	"strings are byte sequences (uninterpreted sort with len/at, extensionality instances added per equality)",
-	"append returns a fresh backing array (no aliasing with the old slice); memory exhaustion and stack depth are ignored",
+	"append returns a fresh backing array (no aliasing with the old slice); memory exhaustion and stack depth are ignored; no string or slice is longer than 2^62 elements",
+	"fresh objects: allocation (and the initialising stores into an object before it escapes its basic block) is modelled as an assumption on the current heap instead of a heap update; sound because no pointer to the object existed before",
 	"goroutines, channels, select, recover, unsafe, floating point are outside the subset: a function using them is rejected, not approximated",
 }
 
@@ -541,10 +542,28 @@ func report(o *Options, w *World, results []*FuncResult, jobs []*job, start time
 			continue
 		}
 		violations++
-		inputs := decodeModel(f)
-		tail := ""
-		if inputs == nil {
-			tail = " no-failing-input-found"
+		var inputs interface{}
+		var replayed map[string]interface{}
+		tail := " no-failing-input-found"
+		for _, cand := range g.failed {
+			if cand.Reason != "sat" || cand.fn == nil {
+				continue
+			}
+			vals := modelValues(cand)
+			if len(vals) == 0 {
+				continue
+			}
+			f = cand
+			inputs = vals
+			if ri := w.replayInfoFor(cand.pi, cand.fn, cand.Inputs); ri != nil {
+				replayed = w.runReplay(o.repo, ri, vals, cand.pi)
+				if ran, _ := replayed["ran"].(bool); ran {
+					tail = ""
+				}
+			} else {
+				replayed = map[string]interface{}{"ran": false, "why": "the function has a pointer receiver or no callable form: its inputs live in the heap and are not rebuilt from the model"}
+			}
+			break
 		}
 		var qpath string
 		if o.replayDir != "" {
@@ -554,7 +573,7 @@ func report(o *Options, w *World, results []*FuncResult, jobs []*job, start time
 		}
 		p := writeReplay(g.name, map[string]interface{}{
 			"property": o.prop, "obligation": g.name, "kind": g.kind, "function": g.fn, "behaviour": g.label,
-			"clause": g.src, "path": f.Path, "reason": f.Reason, "solver_output": f.Model, "model_inputs": inputs,
+			"clause": g.src, "path": f.Path, "reason": f.Reason, "solver_output": f.Model, "model_values": inputs, "replay_on_real_code": replayed,
 			"failed_instances": len(g.failed), "instances": g.instances, "query": qpath,
 		})
 		fmt.Printf("VIOLATION property=%s replay=%s%s\n", o.prop, p, tail)
@@ -808,4 +827,15 @@ func parseGetValue(s string) map[string]string {
 		}
 	}
 	return out
+}
+
+func modelValues(o *Obligation) map[string]string {
+	if o.Reason != "sat" {
+		return nil
+	}
+	i := strings.Index(o.Model, "\n")
+	if i < 0 {
+		return nil
+	}
+	return parseGetValue(o.Model[i+1:])
 }
